@@ -427,6 +427,9 @@ def getter_fold(prog, f, field, token=424242):
     ev.inline = {g.qn for g in prog.functions.values() if g.cls == f.cls and g.kind not in ("ctor", "dtor")} if f.cls else set()
     try:
         ev.run_blocks(f.entry, max_steps=300)
-        return getattr(ev, "ret", None)
+        r = getattr(ev, "ret", None)
+        if isinstance(r, tuple) and r and r[0] == "lvalue":
+            r = ev.env.get(r[1], r)          # a getter that returns a reference to the member: what the member holds
+        return r
     except Unknown as u:
         return "unknown: %s" % u
